@@ -36,6 +36,7 @@ func init() {
 	gens["Src_servehttp.v"] = genGoLiteServeHTTP
 	gens["Src_addtarget.v"] = genGoLoopAddTarget
 	gens["Src_decompress.v"] = genGoLiteDecompress
+	gens["Src_normpath.v"] = genGoLoopNormPath
 }
 
 // innerHandler finds the innermost function literal of shape func(c echo.Context) error inside fd.
@@ -1439,4 +1440,21 @@ func genGoLiteDecompress(repo string) (string, error) {
 		return "", err
 	}
 	return goliteHeader + "(* middleware/decompress.go: the request handler (innermost closure) of DecompressWithConfig.  The skipper, the pool, the type test\n   of what the pool returned and gzip.Reader.Reset are external (input stream); the deferred calls, the replacement of the request\n   body and next are events; the Content-Encoding header is a cell. *)\n" + s, nil
+}
+
+func genGoLoopNormPath(repo string) (string, error) {
+	f, err := parseFile(repo, "router.go")
+	if err != nil {
+		return "", err
+	}
+	fd := findFunc(f, "", "normalizePathSlash")
+	if fd == nil {
+		return "", fmt.Errorf("normalizePathSlash not found")
+	}
+	s, err := goliteFunc(fd, "normalize_path_slash", goliteCfg{loop: true, ignore: map[string]bool{}, extern: map[string]bool{}, cells: map[string]bool{},
+		pure: map[string]bool{"len": true}, strs: map[string]bool{"path": true}})
+	if err != nil {
+		return "", err
+	}
+	return goloopHeader + "(* router.go: normalizePathSlash - what Router.add and Router.insert make of a registered pattern before anything else looks at it. *)\n" + s, nil
 }
